@@ -6,7 +6,7 @@ import ast
 
 from ..astutil import AnalysisError, call_attr, dotted, src, walk_no_nested_defs
 from ..flow import case_index, step_exprs
-from ..paths import Path, resolve_name
+from ..paths import Path, env_at, resolve_name
 from ..rules import optional as optional_rules
 from .common import IT_ENGINE, IT_ROWS, Ctx, describe, new_run
 
@@ -364,6 +364,47 @@ def check(model, tier):
                 run.fail("R18.6", inst, f"the {arm} arm executes `{'.'.join(acc)}` {len(calls)} times on one path (`{src(calls[1])[:50]}` again): a sort, deduplication or unexecuted materialization upstream consumes its input once per execution", fi=ex, node=calls[1], details=describe(p))
             else:
                 run.ok("R18.6", inst)
+    # ---- R18.8 a materialization is evaluated once for all
+    run.rule(
+        "R18.8",
+        "every returning path of execute()'s Materialization arm attaches the rows it returns to the relation "
+        "(relation.attach_payload(<returned value>)), whatever kind of iterable they are: without the payload the "
+        "short-circuit at the top of execute() never applies and each later execute() runs the whole upstream again",
+        1,
+    )
+    n_mat = 0
+    for i, p in enumerate(paths):
+        arm, idx = arm_of(p)
+        if arm != "Materialization" or p.outcome != "return":
+            continue
+        n_mat += 1
+        inst = f"execute:Materialization:path{i}:cached"
+        att = [(j, c) for j, c in path_calls(p, idx) if call_attr(c) == "attach_payload" and isinstance(c.func, ast.Attribute) and src(c.func.value) == rel and c.args]
+        rv = p.value
+        ok = False
+        for j, c in att:
+            a = c.args[0]
+            if src(a) == src(rv):
+                ok = True
+            elif isinstance(a, ast.Name) and isinstance(rv, ast.Name):
+                ea, er = env_at(p, j).get(a.id), env_at(p).get(rv.id)
+                ok = ok or (isinstance(ea, ast.AST) and isinstance(er, ast.AST) and src(ea) == src(er))
+            elif isinstance(rv, ast.Attribute) and src(rv) == f"{rel}.payload":
+                ok = True
+        if ok:
+            run.ok("R18.8", inst)
+        else:
+            run.fail(
+                "R18.8",
+                inst,
+                f"a path through the Materialization arm returns `{src(rv)[:50]}` without having attached it to `{rel}`: the materialization is evaluated again by every later execute() "
+                "(a sort or deduplication upstream consumes its input once more each time)",
+                fi=ex,
+                node=p.node,
+                details=describe(p),
+            )
+    if n_mat == 0:
+        raise AnalysisError("execute() has no returning Materialization arm")
     from ..rules.foundation import run_foundation
 
     run_foundation(ctx, "18")
